@@ -58,6 +58,7 @@ impl G {
             _ => 65535,
         };
         let max = if max == 0 { 3 } else { max };
+        let max = if mode == "c10" { *rng.pick(&[65535u16, 65535, 65535, 65534, 4, 2]) } else { max };
         let bound = *rng.pick(&[1usize, 2, 3, 16]);
         G { w: World::new(max, bound), rng, consumers: vec![], mode: mode.to_string(), no_random_teardown: false, uniq: 0 }
     }
@@ -414,6 +415,8 @@ impl G {
             "c11" => self.mode_c11(),
             "c13" => self.mode_c13(),
             "c20" => self.mode_c20(),
+            "c10" => self.mode_c10(),
+            "c06" => self.mode_c06(),
             "c07" => {
                 self.setup_channels(0, 3);
                 self.setup_consumers(40);
@@ -811,6 +814,93 @@ impl G {
             let mut r = self.rng.fork();
             let o = if self.rng.boolean() { vec![Wr::Wrote(l)] } else { vec![Wr::Wrote(l / 2 + 1), Wr::Wrote(l)] };
             self.w.stream(Some(o), None, &mut r);
+        }
+    }
+
+    /// C06 at the level of the I/O thread (Inner::read_from_stream + FrameBuffer): a long run of
+    /// frames arrives either in ONE readiness episode (tens to hundreds of KiB before the socket
+    /// would block) or in several; what is delivered must be the same
+    fn mode_c06(&mut self) {
+        self.no_random_teardown = true;
+        self.setup_channels(1, 2);
+        self.unique_consumers(100);
+        let ch = match self.some_open() {
+            Some(c) => c,
+            None => return,
+        };
+        let tag = match self.consumers.iter().find(|(c, _)| *c == ch) {
+            Some((_, t)) => t.clone(),
+            None => return,
+        };
+        let n = self.rng.range(12, 70);
+        let mut fs: Vec<FR> = Vec::new();
+        for i in 0..n {
+            let len = *self.rng.pick(&[0usize, 1, 700, 3000, 4088, 5000]);
+            fs.extend(self.content(ch, 0, &tag, len, i + 1));
+        }
+        match self.rng.below(3) {
+            0 => self.feed_stream(fs, Term::Block),
+            1 => {
+                let cut = self.rng.range(1, fs.len() as u64 - 1) as usize;
+                let rest = fs.split_off(cut);
+                self.feed_stream(fs, Term::Block);
+                self.feed_stream(rest, Term::Block);
+            }
+            _ => {
+                // ... and the connection's end right behind it
+                fs.push(FR::Method(0, SM::ConnClose(320, "bye".into())));
+                self.feed_stream(fs, Term::Block);
+            }
+        }
+        for _ in 0..(n + 2) {
+            self.recv_some();
+        }
+    }
+
+    /// C10 at the level of the I/O thread: ids at the boundaries of the range are opened,
+    /// used like any other (requests, wake-ups, replies), closed by the server and re-opened
+    fn mode_c10(&mut self) {
+        self.no_random_teardown = true;
+        let max = self.w.max;
+        let cands: Vec<u16> = [1u16, 2, 255, 256, 32767, 32768, 65534, 65535, max, max.saturating_sub(1), max.wrapping_add(1), 0]
+            .iter()
+            .copied()
+            .collect();
+        let k = self.rng.range(1, 4);
+        for _ in 0..k {
+            let id = *self.rng.pick(&cands);
+            self.open_channel(Some(id));
+        }
+        self.open_channel(None);
+        let n = self.rng.range(4, 14);
+        for _ in 0..n {
+            if self.w.errored || self.w.dead {
+                break;
+            }
+            match self.rng.below(6) {
+                0 => {
+                    let id = *self.rng.pick(&cands);
+                    self.open_channel(Some(id));
+                }
+                1 | 2 => {
+                    if let Some(ch) = self.some_open() {
+                        self.client_send(ch);
+                        self.w.event_chan(ch);
+                    }
+                }
+                3 => {
+                    if let Some(ch) = self.some_open() {
+                        let f = self.random_reply(ch);
+                        self.feed(vec![f], Term::Block);
+                    }
+                }
+                4 => {
+                    if let Some(ch) = self.some_open() {
+                        self.feed(vec![FR::Method(ch, SM::ChanClose(404, "gone".into()))], Term::Block);
+                    }
+                }
+                _ => self.recv_some(),
+            }
         }
     }
 
